@@ -299,6 +299,35 @@ def rand_grammar(rnd, flavour=None, regex_ok=True, computed=None, recursion=True
     raise RuntimeError("could not generate a grammar in the family")
 
 
+def rand_nullable_grammar(rnd):
+    """A named nonterminal that derives the empty word and is expected at several places, some of them at the same
+    input position (after it has already been completed there) - the class of finding F38."""
+    y, c, d, a = lit_text("y"), lit_text("c"), lit_text("d"), lit_text("a")
+    o_forms = [rep(y, 0, 1), alt(lit_text(""), y), rep(y, 0, 2), regex([("y", 0, 1)]), alt(rep(y, 0, 1), lit_text("z")),
+               cat(rep(y, 0, 1), rep(lit_text("z"), 0, 1))]
+    o, x, pp = nt("<o>"), nt("<x>"), nt("<p>")
+    rules = {"<o>": rnd.choice(o_forms)}
+    shape = rnd.randint(1, 8)
+    if shape == 1:
+        rules["<start>"], rules["<x>"] = cat(o, x), cat(o, c)
+    elif shape == 2:
+        rules["<start>"] = cat(o, o, c)
+    elif shape == 3:
+        rules["<start>"], rules["<x>"] = cat(x, x), cat(o, alt(c, d))
+    elif shape == 4:
+        rules["<start>"], rules["<x>"] = cat(o, x), alt(cat(o, c), d)
+    elif shape == 5:
+        rules["<start>"], rules["<x>"] = cat(a, o, x, o), cat(o, c, o)
+    elif shape == 6:
+        rules["<start>"], rules["<p>"], rules["<x>"] = cat(pp, x), cat(o, o), cat(pp, c)
+    elif shape == 7:
+        rules["<start>"], rules["<x>"] = cat(rep(o, 0, 1), x, rep(x, 0, 1)), cat(o, alt(c, cat(o, d)))
+    else:
+        rules["<start>"], rules["<x>"], rules["<p>"] = cat(o, pp), cat(o, c), alt(x, cat(o, x, o))
+    rules = {"<start>": rules.pop("<start>"), **rules}
+    return {"start": "<start>", "rules": rules, "flavour": "text", "computed": 0}
+
+
 def _reachable_ok(g):
     # every rule must be able to terminate: guaranteed by the literal fallback; nothing else to check
     return True
